@@ -5,7 +5,7 @@ from ctypes import c_int64, byref
 
 from akext import _lib
 from akext import content as _content
-from akext._util import FILENAME, arg_int64, arg_bool, arg_string, cast_int64, _badarg
+from akext._util import FILENAME, arg_int64, arg_bool, arg_string, cast_int64, _badarg, no_pickle
 
 
 def _fn(line):
@@ -38,6 +38,7 @@ def _int_vector(obj, what):
     return [arg_int64(x, what) for x in obj]
 
 
+@no_pickle
 class PartitionedArray(object):
     __slots__ = ("_h", "__weakref__")
 
